@@ -145,4 +145,5 @@ func c19WriteSide(c *Ctx, p *Prog) {
 			cmp(pr[0], pr[1])
 		}
 	}
+	growPrimitiveCallers(c, p, "R19.1")
 }
